@@ -508,3 +508,11 @@ def strict_counts(ctx):
     transcript, so they are protected by strict parsing only — a reader that clamps or adjusts an announced count accepts a
     modified count byte (C13.announced-count-exact on the encapsulation and header readers)."""
     c13.restricted(ctx, r'(core::Encapsulations|core::XEnc|encrypted_header::EncryptedHeader)$', [c13.announced_count_exact, c13.read_keeps_every_element])
+
+
+@rule('C07', 'instance-is-stateless')
+def instance_is_stateless(ctx):
+    """'any modification ... is rejected': an encapsulation is opened by checking ITS components against the key, never by recognising part of it (its tag, say) from an earlier call. Structurally: the scheme instance holds its random generator and nothing else — no cache, no memo, no static, no
+    thread-local (C19.state-audit)."""
+    from . import c19
+    c19.state_audit(ctx)
